@@ -5,6 +5,7 @@ V = os.path.dirname(os.path.dirname(os.path.abspath(__file__)))
 ALL = ["C%02d" % i for i in range(1, 20)]
 # property -> (families, level text, level note)
 CLAIMED = {
+ "C16": ("cqueue", "Generated-schedule search over cqueue scopes (1-4 arms with immediate / channel / sleep / semaphore top halves, 1-3 events, optional panics, feeders at generated times, 1-6 timed or untimed polls, Selector::remove) and the select! macro with nearly simultaneous arms; oracle = per poll the returned arm's bottom-half counter grew by exactly one and no other arm's did, event sequence numbers per arm in order without duplicates, bottom <= top <= bottom+1, Finished only when every arm has ended, Timeout only after d, no arm alive after the scope, arm panic re-raised in the poller, select! returns an arm with top and bottom run once and nothing executing or running later.", "5/C16"),
  "C14": ("scope", "Generated-schedule search over coroutine::scope (with nested scopes), join! inside a select arm that gets cancelled (safe code), and cqueue scopes with looping arms; faults: owner panics in the body, owner cancelled at a generated time, child panics; oracle = frame tombstone (no child step observes the borrowed frame dead), no child still running when the owner has ended, child panic reaches the owner, owner outcome consistent with the injected fault, no crash, no hang.", "5/C14"),
  "C01": ("spawn", "Generated-schedule search over spawn trees of up to 16 coroutines (spawned from the main thread, user threads and other coroutines, with builder options and small pools), bodies that yield/sleep/park/lock/spawn and end in a value or a panic, spawners that wait with join, wait(), is_done() polling or cancel; oracle = execution counter exactly 1, residency flag never found set (never on two OS threads at once), join() result equals the closure's outcome, completion never reported before the closure's last action, every join returns (exact deadlock detection).", "5/C01"),
  "C02": ("park", "Generated-schedule search over park/unpark protocols: coroutine::park / park_timeout(1h) and fresh Blockers parked in thread and coroutine context over several rounds, unparkers calling unpark 1-3 times per round after the previous park returned; oracle = every park returns (exact deadlock detection; a 1 h time-out that actually elapses in virtual time is a lost wake-up), Blocker::park reports Ok only after an unpark on that blocker, Timeout only after the deadline, never Canceled.", "5/C02"),
